@@ -52,3 +52,35 @@ package innerring
 //@   property C35
 //@   callee (*innerring.Server).AlphabetIndex
 //@   defines alphabetIndexOf() == result
+
+// ---- C35 (index cache): the indexer may mark its cache fresh only after BOTH list
+// fetches succeeded; a failed refresh must leave the freshness mark untouched so that the
+// next lookup fetches again instead of serving a half-updated (zero = "alphabet #0") index.
+// A failed lookup is reported to the callers, which map it to index -1.
+
+//@ iface (irFetcher).InnerRingKeys
+//@   property C35
+//@   pureeffect
+//@ iface (committeeFetcher).Committee
+//@   property C35
+//@   pureeffect
+
+//@ func keyPosition
+//@   property C35
+//@   pureeffect
+
+//@ func (*innerRingIndexer).update
+//@   property C35
+//@   ensures [failed_refresh_keeps_cache_stale] err != nil ==> s.lastAccess == old(s.lastAccess)
+
+//@ func (*Server).AlphabetIndex
+//@   property C35
+//@   ensures [lookup_failure_means_not_alphabet] lookupFailed() ==> result == -1
+//@ ghost pred lookupFailed() bool
+//@ callrule alphabet_lookup_fact in (*Server).AlphabetIndex, (*Server).InnerRingIndex
+//@   property C35
+//@   callee (*innerring.innerRingIndexer).AlphabetIndex, (*innerring.innerRingIndexer).InnerRingIndex
+//@   defines lookupFailed() <==> err != nil
+//@ func (*Server).InnerRingIndex
+//@   property C35
+//@   ensures [lookup_failure_means_not_member] lookupFailed() ==> result == -1
